@@ -276,6 +276,18 @@ func ProcessResponse(b []byte, key []byte, ntskeFetcher *ntske.Fetcher, pkt *Pac
 	return nil
 }
 
+// ResponseCookieCapacity returns the number of cookies of length cookieLen that
+// fit into a response packet echoing a unique identifier of length uniqueIDLen.
+func ResponseCookieCapacity(uniqueIDLen, cookieLen int) int {
+	pad := func(n int) int { return (n + 3) & ^3 }
+	avail := MaxPacketLen - ntpPacketLen - (4 + pad(uniqueIDLen)) -
+		(4 /* header */ + 4 /* lengths */ + 16 /* nonce */ + 16 /* tag */)
+	if avail < 0 {
+		return 0
+	}
+	return avail / (4 + pad(cookieLen))
+}
+
 // NewResponsePacket creates and returns a new Packet that should be used by
 // a server for a response to a request.
 func NewResponsePacket(cookies [][]byte, key []byte, uniqueid []byte) (pkt Packet) {
